@@ -126,7 +126,7 @@ def run_check(prop, tier, seed, jobs=None):
     # witnesses of earlier runs of this property are stale once a new run starts
     # evidence and witnesses under /verif always describe /repo itself; runs against another tree (CCT_REPO: seeded
     # changes, mutants, the pre-fix worktree) write elsewhere
-    out_dir = os.environ.get("VERIF_OUT") or (VERIF if repo == os.path.realpath("/repo") else os.path.join(tempfile.gettempdir(), "vf_out_other_tree"))
+    out_dir = os.environ.get("VERIF_OUT") or (VERIF if repo == os.path.realpath("/repo") else os.path.join(tempfile.gettempdir(), "vf_out_other_tree", os.path.basename(repo.rstrip("/")) or "tree"))
     shutil.rmtree(os.path.join(out_dir, "replays", prop), ignore_errors=True)
     scratch = tempfile.mkdtemp(prefix="vf_%s_" % prop)
     try:
